@@ -242,8 +242,8 @@ Definition depth_first_search (v : view) (ctl : dfs_event -> control) (debug : b
        (dfs_search (4 * trav_fuel v) v ctl debug starts (mkDv [] [] 0 [])).
 
 (* ------------------------------------------------------------------ line grammar *)
-Definition TAG_PANIC := 2.  Definition TAG_FUEL := 10. Definition TAG_SEQ := 40.
-Definition TAG_EVENTS := 41. Definition TAG_BOOL := 0.
+Definition TAG_PANIC := 2.  Definition TAG_FUEL := 10. Definition TAG_SEQ := 41.
+Definition TAG_EVENTS := 42. Definition TAG_BOOL := 0.
 
 Definition rline {A} (f : A -> line) (r : res A) : line :=
   match r with Ok a => f a | Panic => (TAG_PANIC, []) | OutOfFuel => (TAG_FUEL, []) end.
